@@ -211,7 +211,9 @@ def affinity_then_evaluate(ctx, eps, rs):
     from sklearn.metrics import pairwise_kernels, pairwise_distances
     import copy as _copy
     for cls, ovo in [c for c in gl.CONFIGS if c[0] in ("mmd", "wass")]:
-        for name in (["linear", "rbf", "laplacian", "poly", "sigmoid"] if cls == "mmd" else ["euclidean", "manhattan"]):
+        # EVERY name scikit-learn offers (each has its own defaults: gamma = 1/n_features for rbf, laplacian, poly, sigmoid, but 1 for chi2)
+        for name in (["linear", "rbf", "laplacian", "poly", "polynomial", "sigmoid", "cosine", "chi2", "additive_chi2"] if cls == "mmd"
+                     else ["euclidean", "manhattan", "l1", "l2", "cityblock", "cosine"]):
             n, K, d = int(rs.randint(4, 8)), int(rs.randint(2, 4)), int(rs.randint(1, 4))
             # a parameter dictionary WITHOUT the data-dependent default (gamma = 1/n_features): it belongs to the caller and the
             # two data sets have different numbers of features
@@ -222,6 +224,8 @@ def affinity_then_evaluate(ctx, eps, rs):
             else:
                 g = G.WassersteinGEMINI(ovo=ovo, metric=name, epsilon=eps)
             X1, X2 = rs.randn(n, d), rs.randn(n, d + 2) * 3 + 1
+            if name in ("chi2", "additive_chi2"):       # defined for non-negative data
+                X1, X2 = np.abs(X1) + 0.1, np.abs(X2) + 0.1
             A1, A2 = g.compute_affinity(X1), g.compute_affinity(X2)
             if params != given:
                 ctx.violation(f"compute_affinity changed the caller's parameter dictionary from {given!r} to {params!r}", "score:reuse",
